@@ -9,9 +9,10 @@
 /* static uint32_t bloc_builtin_hash(uint32_t maxsize, const char * buf, unsigned len):
  * reads exactly buf[0 .. len), needs a non-zero modulus, result below the modulus */
 unsigned _ZN4blocL17bloc_builtin_hashEjPKcj(unsigned maxsize, const char *buf, unsigned len)
-__CPROVER_requires(maxsize != 0 && __CPROVER_r_ok(buf, len) && __exc == 0)
 #ifdef HASH_LOOP_JOB
-__CPROVER_requires(len <= HASH_LEN_MAX && IS_FRESH(buf, HASH_LEN_MAX))
+__CPROVER_requires(IS_FRESH(buf, HASH_LEN_MAX) && len <= HASH_LEN_MAX && maxsize != 0 && __exc == 0)
+#else
+__CPROVER_requires(maxsize != 0 && __CPROVER_r_ok(buf, len) && __exc == 0)
 #endif
 __CPROVER_assigns()
 PROP(C01, C10) __CPROVER_ensures(__exc == 0 && __CPROVER_return_value < maxsize)
